@@ -103,6 +103,15 @@ CHECKS = {
         note="either variance convention (n, n-1) accepted; float64, tolerance 1e-10",
         ref="DESIGN.md 4/C14",
     ),
+    "C15": dict(
+        technique="exhaustive enumeration of construction-randomness answers (all pairs, through seams on torch.randperm / randint / multinomial) and of model classes x configurations x histories-before-saving; oracle = bitwise agreement between the saved model and a differently-built instance after strict load_state_dict",
+        text="For every transform, distribution and flow configuration (<=1 / <=2 deviations) and every history before saving (fresh, data-dependent initialisation, two optimiser steps, "
+        "eval-mode calls with caching on) a model A is built and exercised, its state dict is loaded (strict) into an instance B constructed under different randomness, and forward / inverse / "
+        "log_prob / transform_to_noise of A and B must be bit-identical in eval mode. Random permutations (n<=3), the 1x1 convolution's permutation, random MADE degrees and random binary masks are "
+        "enumerated exhaustively: all pairs (answer for A, answer for B).",
+        note="same configuration = same constructor arguments; the number of pairs where A and B differed before loading is reported (vacuity guard)",
+        ref="DESIGN.md 4/C15",
+    ),
     "C17": dict(
         technique="bounded-exhaustive product exploration: boundary alphabet placed at every (batch, feature) position x subject x direction x box/tail bound x dtype x pattern; oracle = exception type / finiteness",
         text="For every domain-restricted transform and direction (Exp/Tanh/Sigmoid/Cauchy inverses, Logit, the four box splines as bare functions with three boxes, as CDF "
